@@ -5,7 +5,6 @@ package main
 
 import (
 	"fmt"
-	"sort"
 	"strings"
 )
 
@@ -556,158 +555,3 @@ func (g *Graph) Source(c Config) string {
 	return sb.String()
 }
 
-// ---- structural features (used for signatures; never ids or values) ---------------------------------------------
-
-type feat struct {
-	nBlocks         int
-	collapsed       bool // some block holds more than one instance
-	allCollapsed    bool // one block
-	allSplit        bool // every instance alone
-	internalLink    bool // a link between two instances of the same block
-	crossLink       bool // a link between instances of different blocks
-	fanInternal2    bool // a producer port with two consumers inside its own block
-	fanMixed        bool // a producer port with one consumer inside its block and one outside (other CP or ext)
-	fanCross2       bool // a producer port with two consumers outside its block (two links on one CP output)
-	extInFan        bool // an external input feeding two consumers
-	extInFanSameCP  bool // ... both consumers in the same block
-	extOutSamePort  bool // two external outputs fed by the same producer port
-	nonConvex       bool // block quotient graph has a cycle (a block both feeds and is fed by another one)
-	multiOutKind    bool // graph contains a two-output fragment
-	scratchKind     bool
-	binaryKind      bool
-	secondPortFirst bool // a two-output instance whose port 1 is consumed but port 0 is not
-	extInOrderSwap  bool // inside some block the external inputs are first met in an order different from their index
-	multiExtOut     bool
-	crossReadsLater bool
-}
-
-func (g *Graph) features(c Config) feat {
-	var f feat
-	n := g.N()
-	blk := make([]int, n)
-	pos := make([]int, n)
-	for b, l := range c.Blocks {
-		for x, i := range l {
-			blk[i] = b
-			pos[i] = x
-		}
-		if len(l) > 1 {
-			f.collapsed = true
-		}
-	}
-	f.nBlocks = len(c.Blocks)
-	f.allCollapsed = f.nBlocks == 1
-	f.allSplit = f.nBlocks == n
-	type cons struct{ inst int }
-	consumers := map[Src][]int{} // consumer instance (n = ext)
-	for i := range g.Kinds {
-		for _, s := range g.In[i] {
-			consumers[s] = append(consumers[s], i)
-		}
-	}
-	for _, s := range g.Outs {
-		consumers[s] = append(consumers[s], n)
-	}
-	bq := map[[2]int]bool{}
-	for s, cs := range consumers {
-		if s.Inst < 0 {
-			if len(cs) > 1 {
-				f.extInFan = true
-				if cs[0] < n && cs[1] < n && blk[cs[0]] == blk[cs[1]] {
-					f.extInFanSameCP = true
-				}
-			}
-			continue
-		}
-		in, outb := 0, 0
-		extc := 0
-		for _, ci := range cs {
-			if ci == n {
-				outb++
-				extc++
-			} else if blk[ci] == blk[s.Inst] {
-				in++
-				f.internalLink = true
-			} else {
-				outb++
-				f.crossLink = true
-				bq[[2]int{blk[s.Inst], blk[ci]}] = true
-			}
-		}
-		if in >= 2 {
-			f.fanInternal2 = true
-		}
-		if in >= 1 && outb >= 1 {
-			f.fanMixed = true
-		}
-		if outb >= 2 {
-			f.fanCross2 = true
-		}
-		if extc >= 2 {
-			f.extOutSamePort = true
-		}
-	}
-	// cycle in block quotient
-	nb := f.nBlocks
-	r := make([][]bool, nb)
-	for i := range r {
-		r[i] = make([]bool, nb)
-	}
-	for e := range bq {
-		r[e[0]][e[1]] = true
-	}
-	for k := 0; k < nb; k++ {
-		for i := 0; i < nb; i++ {
-			for j := 0; j < nb; j++ {
-				if r[i][k] && r[k][j] {
-					r[i][j] = true
-				}
-			}
-		}
-	}
-	for i := 0; i < nb; i++ {
-		if r[i][i] {
-			f.nonConvex = true
-		}
-	}
-	for i, k := range g.Kinds {
-		if len(kinds[k].ResOut) > 1 {
-			f.multiOutKind = true
-			if len(consumers[Src{i, 0}]) == 0 && len(consumers[Src{i, 1}]) > 0 {
-				f.secondPortFirst = true
-			}
-		}
-		if kinds[k].Name == "scr" {
-			f.scratchKind = true
-		}
-		if len(kinds[k].ResIn) > 1 {
-			f.binaryKind = true
-		}
-	}
-	f.multiExtOut = len(g.Outs) > 1
-	for _, l := range c.Blocks {
-		last := -1
-		for _, i := range l {
-			for _, s := range g.In[i] {
-				if s.Inst < 0 {
-					if s.Port < last {
-						f.extInOrderSwap = true
-					}
-					if s.Port > last {
-						last = s.Port
-					}
-				}
-			}
-		}
-	}
-	return f
-}
-
-func sortedKeys(m map[string]int) []string {
-	ks := make([]string, 0, len(m))
-	for k := range m {
-		ks = append(ks, k)
-	}
-	sort.Strings(ks)
-	return ks
-}
